@@ -234,8 +234,11 @@ class KeyStore(object):
         if at_time:
             # validity at the creation time of the bundle (milliseconds since 2000-01-01T00:00:00Z)
             import datetime
-            moment = datetime.datetime(2000, 1, 1) + datetime.timedelta(milliseconds=at_time)
-            if not (cert.not_valid_before <= moment <= cert.not_valid_after):
+            try:
+                moment = datetime.datetime(2000, 1, 1, tzinfo=datetime.timezone.utc) + datetime.timedelta(milliseconds=at_time)
+            except OverflowError:
+                raise SecError('certificate is not valid at the bundle creation time (beyond the calendar)')
+            if not (cert.not_valid_before_utc <= moment <= cert.not_valid_after_utc):
                 raise SecError('certificate is not valid at the bundle creation time %s' % moment.isoformat())
         names = []
         try:
